@@ -35,8 +35,10 @@ func checkC12(p *Prog, r *Report) {
 	r.rule("C12.K3", "every heap/sort comparator over SEQ or FECID elements (segmentHeap.Less, shardHeap.Less, the sort.Slice closure over pulses) orders through the signed difference", 3)
 	r.rule("C12.K4", "_itimediff is int32(later - earlier); currentMs is the only clock source of the core and truncates to uint32", 2)
 	r.rule("C12.K5", "paws is computed as 0xffffffff / shardSize * shardSize at every store; every advance of the encoder id is reduced modulo paws", 5)
+	r.rule("C12.K7", "a value compared by signed difference has no meaningful zero: the FEC decoder's newest group id is taken from the first packet unconditionally and invalidated when its unit (shardSize) changes (= C16.T9) — otherwise behaviour depends on where in the 32-bit space the ids start", 2)
 	r.rule("C12.K6", "a core timer field that does not start from the clock (constructor constant or zero value, i.e. an absolute clock position) is compared with the clock only after it has been re-based: every read in a signed difference lies behind a store from the clock or behind a test of an 'initialised' field whose zero edge stores from the clock or returns", 3)
 	checkTimerRebase(p, r)
+	checkNewestGroupInit(p, r, "C12.K7")
 	ka := p.Kinds()
 	seen := map[string]int{}
 	key := func(fn *FuncInfo, n ast.Node, what string) string {
